@@ -1,19 +1,50 @@
 import Knut.Driver.JournalWire
 import Knut.Model.Check
 import Knut.Spec.Lifecycle
+import Knut.Model.Accrual
 /-! Driver ops for C04: the checker model and the lifecycle specification on wire journals. -/
 namespace Knut.Driver.C04
 open Knut Knut.Wire Knut.Driver
 
-/-- model directives of a raw journal; `none` when it uses a feature this op does not model (accruals) -/
+/-- outcome of turning the loaded syntax into model directives (`model.FromStream`) -/
+inductive Loaded where
+  | ok (ds : List (Nat × Directive))   -- each model directive with the index of its source directive
+  | error
+  | panic (site : String)
+
+def parseIv (s : String) : Option Interval :=
+  if s = "daily" then some .daily else if s = "weekly" then some .weekly
+  else if s = "monthly" then some .monthly else if s = "quarterly" then some .quarterly else none
+
+/-- model directives of a raw journal: transactions go through `transaction.Create` (accrual expansion, Model/Accrual) -/
+def load (raw : List RawDirective) : Loaded :=
+  let rec go (i : Nat) (rest : List RawDirective) (acc : List (Nat × Directive)) : Loaded :=
+    match rest with
+    | [] => .ok acc.reverse
+    | d :: tl =>
+      match d with
+      | .price p => go (i + 1) tl ((i, Directive.price p) :: acc)
+      | .opening o => go (i + 1) tl ((i, .opening o) :: acc)
+      | .closing c => go (i + 1) tl ((i, .closing c) :: acc)
+      | .assertion a => go (i + 1) tl ((i, .assertion a) :: acc)
+      | .tx date desc tg none bks => go (i + 1) tl ((i, .tx (plainTx date desc tg bks)) :: acc)
+      | .tx date desc tg (some ac) bks =>
+        match parseIv ac.interval with
+        | none => .error
+        | some iv =>
+          match Accrual.create { date := date, description := desc, targets := tg,
+                                 bookings := bks.map (fun b => ⟨b.credit, b.debit, b.quantity, b.commodity⟩),
+                                 accrual := some ⟨iv, ac.start, ac.stop, ac.account⟩ } with
+          | .ok txs => go (i + 1) tl ((txs.map (fun t => (i, Directive.tx t))).reverse ++ acc)
+          | .error => .error
+          | .panic s => .panic s
+  go 0 raw []
+
+/-- the directives only; `none` on a load error or panic -/
 def toDirectives (raw : List RawDirective) : Option (List Directive) :=
-  raw.mapM (fun d => match d with
-    | .price p => some (Directive.price p)
-    | .opening o => some (.opening o)
-    | .closing c => some (.closing c)
-    | .assertion a => some (.assertion a)
-    | .tx date desc tg none bks => some (.tx (plainTx date desc tg bks))
-    | .tx _ _ _ (some _) _ => none)
+  match load raw with
+  | .ok ds => some (ds.map (·.2))
+  | _ => none
 
 def kindName : CheckErrKind → String
   | .alreadyOpen => "already-open" | .notOpen => "not-open"
@@ -29,25 +60,32 @@ def hasNonzeroNonALAssertion (ds : List Directive) : Bool :=
 def handle (fields : List String) : Option String :=
   match fields with
   | ["check", j] => some (
-    match (parseJournal j).bind toDirectives with
-    | none => "unsupported"
-    | some ds =>
+    match (parseJournal j).map load with
+    | none => "bad-journal"
+    | some .error => "load-error"
+    | some (.panic s) => "panic " ++ s
+    | some (.ok ids) =>
+      let ds := ids.map (·.2)
       let days := (Builder.ofList ds).build
       match Check.run days with
       | .ok _ => "ok"
-      | .error e => s!"error {kindName e.kind} {indexOfDir ds e.directive}")
+      | .error e => s!"error {kindName e.kind} {(ids[indexOfDir ds e.directive]?.map (·.1)).getD 0}")
   | ["c04mon", j, verdict, offender] => some (
     -- property predicate on the implementation's verdict: accepted ⇔ well-formed (lenient spec), and the
     -- named directive is the specification's offender
-    match (parseJournal j).bind toDirectives with
-    | none => "unsupported"
-    | some ds =>
+    match (parseJournal j).map load with
+    | none => "bad-journal"
+    | some .error => (if verdict == "load-error" then "ok" else "fail spec=load-error")
+    | some (.panic s) => "fail spec=panic " ++ s
+    | some (.ok ids) =>
+      let ds := ids.map (·.2)
+      let srcIdx (d : Directive) : Nat := (ids[indexOfDir ds d]?.map (·.1)).getD 0
       let days := (Builder.ofList ds).build
       let lenient := Spec.verdict false days
       let strict := Spec.verdict true days
       let toks := splitOn j '|'
       -- the named directive is compared as a wire token, so that identical duplicates count as the same
-      let sameDir (i : Nat) (d : Directive) : Bool := toks[i]? == toks[indexOfDir ds d]?
+      let sameDir (i : Nat) (d : Directive) : Bool := toks[i]? == toks[srcIdx d]?
       let agrees (v : Except Directive Spec.LState) : Bool :=
         match v with
         | .ok _ => verdict == "ok"
@@ -57,7 +95,7 @@ def handle (fields : List String) : Option String :=
       else
         match lenient with
         | .ok _ => "fail spec=ok"
-        | .error d => s!"fail spec=error {indexOfDir ds d}")
+        | .error d => s!"fail spec=error {srcIdx d}")
   | _ => none
 
 end Knut.Driver.C04
